@@ -224,28 +224,28 @@ func (d *driver) writeEvidence(t0 time.Time, nviol int, known []string) {
 		"distinct_nontrivial": len(d.ntHashes),
 		"rule": "one evaluation = one simulated run (one seed: generated workload + fault plan + scheduling policy) of the real library inside a synctest bubble; " +
 			"distinct = distinct hash of the full scheduler decision trace; non-trivial = the scenario's own rule (concurrent operations present, at least one pre-emption / fault actually fired as applicable), evaluated per run by the worker",
-		"samples":                     samples,
-		"runs_per_hour":               int(runsPerHour),
-		"simulated_time_s":            float64(d.fakeNs) / 1e9,
-		"scheduler_steps":             d.steps,
-		"clock_advances":              d.ticks,
-		"distinct_decision_traces":    len(d.hashes),
-		"distinct_release_site_pairs": len(d.pairs),
-		"preemptions":                 d.preempt,
-		"faults_fired":                d.fired,
-		"probes_hit":                  d.probes,
-		"parks_by_kind":               d.parks,
-		"workload_families":           d.families,
-		"policies":                    d.policies,
-		"verdicts":                    d.verdicts,
-		"process_crashes":             d.crashes,
+		"samples":                       samples,
+		"runs_per_hour":                 int(runsPerHour),
+		"simulated_time_s":              float64(d.fakeNs) / 1e9,
+		"scheduler_steps":               d.steps,
+		"clock_advances":                d.ticks,
+		"distinct_decision_traces":      len(d.hashes),
+		"distinct_release_site_pairs":   len(d.pairs),
+		"preemptions":                   d.preempt,
+		"faults_fired":                  d.fired,
+		"probes_hit":                    d.probes,
+		"parks_by_kind":                 d.parks,
+		"workload_families":             d.families,
+		"policies":                      d.policies,
+		"verdicts":                      d.verdicts,
+		"process_crashes":               d.crashes,
 		"runs_with_leftover_goroutines": d.leftover,
-		"anonymous_goroutine_parks":   d.anon,
-		"known_findings_met":          known,
-		"instrumentation_skipped":     d.skipUsed,
-		"tree":                        treeID(),
-		"real_components":             []string{"go-jsonrpc (source-instrumented copy of /repo's working tree: lock type, select polling order, reflect.Select, go-statement identity, map iteration order, jitter source)", "gorilla/websocket v1.4.2 (unmodified)", "net/http server and Transport", "encoding/json", "context"},
-		"simulated_components":        []string{"network (listener, dial, byte streams, deadlines, faults)", "clock and timers (testing/synctest)", "goroutine scheduling at parks", "server handlers, client-side reverse handlers, callers, producers, consumers (harness)"},
+		"anonymous_goroutine_parks":     d.anon,
+		"known_findings_met":            known,
+		"instrumentation_skipped":       d.skipUsed,
+		"tree":                          treeID(),
+		"real_components":               []string{"go-jsonrpc (source-instrumented copy of /repo's working tree: lock type, select polling order, reflect.Select, go-statement identity, map iteration order, jitter source)", "gorilla/websocket v1.4.2 (unmodified)", "net/http server and Transport", "encoding/json", "context"},
+		"simulated_components":          []string{"network (listener, dial, byte streams, deadlines, faults)", "clock and timers (testing/synctest)", "goroutine scheduling at parks", "server handlers, client-side reverse handlers, callers, producers, consumers (harness)"},
 	}
 	ev := map[string]interface{}{
 		"property_id": d.prop,
